@@ -303,9 +303,16 @@ func (ev *evaluator) expr(e *Expr, env *evEnv) Value {
 		}
 		return t
 	case ERecord:
+		// initialisers run in the order written; the value stores the fields in declaration order
 		r := &VRec{Name: e.Name, Fields: make([]Value, len(e.Args))}
+		d := ev.recs[e.Name]
 		for i, a := range e.Args {
-			r.Fields[i] = ev.expr(a, env)
+			v := ev.expr(a, env)
+			for k, f := range d.Fields {
+				if f.Name == e.Fields[i] {
+					r.Fields[k] = v
+				}
+			}
 		}
 		return r
 	case EField:
